@@ -65,9 +65,18 @@ def evaluate(case):
     tags = dict(G=G, dims=dims, k=mt.k, regime=vs["regime"], empty=any(len(b) == 0 for b in mt.blocks))
     try:
         tree = to_tree_grid(mt, data, (dims, G), sibling_perm=case.get("sib"))
+        before = {nm: (np.array(tree._graph[i].log_p), np.array(tree._graph[i].log_r)) for nm, i in tree._node_indices.items()}
+        first = get_map_node_ccfs_and_clonal_prev_dicts(tree)
+        # summaries are computed repeatedly on one restored tree (table, archive, report): same answer, tree untouched
         ccf, prev = get_map_node_ccfs_and_clonal_prev_dicts(tree)
     except Exception as e:
         raise crash_violation("crash", e, tags)
+    for nm, i in tree._node_indices.items():
+        if not (np.array_equal(before[nm][0], tree._graph[i].log_p) and np.array_equal(before[nm][1], tree._graph[i].log_r)):
+            raise Violation("side-effect", "computing the CCFs modified the likelihood vectors of node %r of the tree" % (nm,), tags)
+    for nm in first[0]:
+        if not (np.array_equal(first[0][nm], ccf[nm]) and np.array_equal(first[1][nm], prev[nm])):
+            raise Violation("side-effect", "two consecutive CCF computations on the same tree disagree for clone %r" % (nm,), tags)
     # map model clones -> real names through the clade (works for empty clones too)
     clade_of = {}
     for nm in tree.nodes:
@@ -126,6 +135,9 @@ def evaluate(case):
         un = {i: int(np.argmax(node_lp[i])) for i in range(mt.k)}
         if any(un[i] < sum(un[c] for c in mt.children(i)) for i in range(mt.k)) or sum(un[r] for r in mt.roots()) > G - 1:
             binding = True
+    # the same values as they are WRITTEN to the results table (map command on a one-entry trace of this tree)
+    if case.get("via_table", True) and G <= 40 and sorted(mt.all_data()) == list(range(n)):
+        _table_path(mt, tree, data, values, (dims, G), tags)
     shape = any(len(mt.children(i)) >= 2 for i in range(-1, mt.k)) or any(mt.depth(i) >= 1 for i in range(mt.k))
     classes = ["grid:%s" % ("dp" if G > 7 else "brute"), "regime:" + vs["regime"], "dims=%d" % dims]
     if tags["empty"]:
@@ -135,3 +147,40 @@ def evaluate(case):
     if any(len(mt.children(i)) >= 3 for i in range(-1, mt.k)):
         classes.append("children>=3")
     return Outcome(nontrivial=shape and binding, classes=tuple(classes), key=[case["mtree"], G, dims, vs], info=dict(mtree=case["mtree"], G=G, dims=dims, values=vs))
+
+
+def _table_path(mt, tree, data, values, grid, tags):
+    import contextlib
+    import io
+    import os
+    import tempfile
+    import types
+
+    from phyclone.process_trace import create_main_run_output, write_map_results
+    from vp import tracegen as tg
+    from vp.checks.c12 import check_table
+    from vp.common import SCRATCH
+
+    n = len(data)
+    dl = [data[i] for i in range(n)]
+    samples = ["S%d" % d for d in range(grid[0])]
+    built = types.SimpleNamespace(
+        muts={i: [dl[i].name] for i in range(n)}, samples=samples, all_mutations=sorted(dp.name for dp in dl), cluster_rows=None, values=values, grid=grid, mut_to_idx={dl[i].name: i for i in range(n)}
+    )
+    os.makedirs(SCRATCH, exist_ok=True)
+    with tempfile.TemporaryDirectory(dir=SCRATCH) as td:
+        trace = os.path.join(td, "t.pkl.gz")
+        res = {0: {"data": dl, "samples": samples, "trace": [{"iter": 0, "time": 0.0, "alpha": 1.0, "log_p_one": -1.0, "tree": tree.to_dict()}], "chain_num": 0}}
+        try:
+            with contextlib.redirect_stdout(io.StringIO()):
+                create_main_run_output(None, trace, res)
+                write_map_results(trace, os.path.join(td, "m.tsv"), os.path.join(td, "m.nwk"))
+        except Exception as e:
+            raise crash_violation("table/crash", e, tags)
+        with open(os.path.join(td, "m.nwk")) as f:
+            nwk = f.read()
+        rows = tg.read_table(os.path.join(td, "m.tsv"))
+    try:
+        check_table(rows, nwk, built, "table", tags)
+    except Violation as v:
+        raise Violation("results-" + v.component, v.message + " (grid %d)" % grid[1], tags)
